@@ -639,6 +639,131 @@ theorem leaf_double (D : Consts F) (hD : D.OK) (hC : ConstsOK2 F) : DoubleLeafOK
     (by by_cases h : f = "%g" <;> simp [arg, ofJVal, dictGet_append, dictGet_optField, dictGet_cons, dictGet_nil, h])
     (by cases feq ar D.zero <;> simp [arg, ofJVal, dictGet_append, dictGet_optField, dictGet_cons, dictGet_nil])
     (by cases feq rr D.relRes <;> simp [arg, ofJVal, dictGet_append, dictGet_optField, dictGet_cons, dictGet_nil])
+  simp only [List.append_assoc] at hmk
   simp [buildNode, dictGet_append, dictGet_optField, dictGet_cons, dictGet_nil, hmk]
+
+/-! ### scaled -/
+
+theorem aligned_iff {s x : F} (h : DInfo.Aligned s x) :
+    ∃ k y, DType.gridIndex s x = some k ∧ ofInt k = some y ∧ mul y s = x := by
+  unfold DInfo.Aligned DType.snap at h
+  split at h
+  · rename_i k hk
+    unfold DType.ofGrid at h
+    split at h
+    · rename_i y hy
+      injection h with h
+      exact ⟨k, y, hk, hy, h⟩
+    · cases h
+  · cases h
+
+theorem le_zero_of_positive (D : Consts F) (hD : D.OK) {s : F} (h : DType.positive s = true) : le D.zero s = true := by
+  unfold DType.positive at h
+  rw [hD.zero_eq] at h
+  obtain ⟨n1, n2⟩ := LawfulFloatOps.lt_notNaN _ _ h
+  have := (LawfulFloatOps.lt_iff D.zero s n1 n2).1 h
+  exact Frappy.Lemmas.C01.le_of_not_le n2 n1 this
+
+theorem dictGet_scaledAbsRes_ne (D : Consts F) (s ar : F) (k : String) (h : k ≠ "absolute_resolution") :
+    dictGet (scaledAbsResField D s ar) k = none := by
+  have h' : ¬ "absolute_resolution" = k := fun e => h e.symm
+  unfold scaledAbsResField
+  split
+  · simp [dictGet, h']
+  · split
+    · simp [dictGet]
+    · simp [dictGet, h']
+
+theorem dictGet_scaledAbsRes_eq (D : Consts F) (s ar : F) :
+    dictGet (scaledAbsResField D s ar) "absolute_resolution" =
+      if feq ar D.zero then some (.int 0) else if feq ar s then none else some (.num ar) := by
+  unfold scaledAbsResField
+  split
+  · simp [dictGet]
+  · split
+    · simp [dictGet]
+    · simp [dictGet]
+
+theorem scaledAbsRes_step (D : Consts F) (hD : D.OK) {s ar : F} (hs : addZero s = s) (hsf : isFinite s = true)
+    (hsp : DType.positive s = true) (hc : addZero ar = ar) (hx : isFinite ar = true) (hn : DType.nonneg ar = true) :
+    propDouble D D.zero maxFinite
+      (orDefault (if feq ar D.zero then some (.int 0) else if feq ar s then none else some (.float ar)) (.float s)) =
+      .ok ar := by
+  have zf := zero_finite D hD
+  cases h0 : feq ar D.zero with
+  | true =>
+    have := CompatLaws.feq_canon ar D.zero h0 hc hD.zero_canon
+    simp only [if_true, orDefault, this]
+    exact propDouble_of D hD (by simp only [toFloat?, hD.zero_eq]) zf zf max_finite
+      (LawfulFloatOps.le_refl _ (notNaN_of_finite zf)) (CompatLaws.finite_bounds _ zf).2
+  | false =>
+    cases h1 : feq ar s with
+    | true =>
+      have := CompatLaws.feq_canon ar s h1 hc hs
+      simp only [Bool.false_eq_true, if_false, if_true, orDefault, this]
+      exact propDouble_self D hD hs hsf zf max_finite (le_zero_of_positive D hD hsp) (CompatLaws.finite_bounds _ hsf).2
+    | false =>
+      simp only [Bool.false_eq_true, if_false, orDefault]
+      exact propDouble_self D hD hc hx zf max_finite (le_zero_of_nonneg D hD hn) (CompatLaws.finite_bounds _ hx).2
+
+theorem mkScaled_of_args (D : Consts F) (hD : D.OK) {fields : List (String × JVal F)}
+    {s mn mx ar rr : F} {u f : String} {kmin kmax : Int} {ymin ymax : F}
+    (hwf : (DInfo.scaled s mn mx ar rr u f).WF D)
+    (hkmin : ofInt kmin = some ymin) (hmn : mul ymin s = mn) (hkmax : ofInt kmax = some ymax) (hmx : mul ymax s = mx)
+    (h0 : arg fields "scale" = some (.float s))
+    (h1 : arg fields "min" = some (.int kmin))
+    (h2 : arg fields "max" = some (.int kmax))
+    (h3 : arg fields "unit" = if u = "" then none else some (.str u))
+    (h4 : arg fields "fmtstr" = if f = "%g" then none else some (.str f))
+    (h5 : arg fields "absolute_resolution" =
+      if feq ar D.zero then some (.int 0) else if feq ar s then none else some (.float ar))
+    (h6 : arg fields "relative_resolution" = if feq rr D.relRes then none else some (.float rr)) :
+    mkScaled D fields = .ok (.scaled s mn mx ar rr u f) := by
+  simp only [DInfo.WF, DType.WF] at hwf
+  obtain ⟨⟨fs, ps, fmn, fmx, hle, cmn, cmx, far, nar, frr, nrr⟩, cs, car, crr, hms, su, sf, hfmt⟩ := hwf
+  have s0 := propDouble_self D hD cs fs hD.minScale_finite max_finite hms (CompatLaws.finite_bounds _ fs).2
+  have s1 := propDouble_self D hD cmn fmn neg_max_finite max_finite (CompatLaws.finite_bounds _ fmn).1
+    (CompatLaws.finite_bounds _ fmn).2
+  have s2 := propDouble_self D hD cmx fmx neg_max_finite max_finite (CompatLaws.finite_bounds _ fmx).1
+    (CompatLaws.finite_bounds _ fmx).2
+  have s3 := kwStr_step (F := F) (d := "") su
+  have s4 := kwStr_step (F := F) (d := "%g") sf
+  have s5 := scaledAbsRes_step D hD cs fs ps car far nar
+  have s6 := kwRes_step D hD hD.relRes_canon crr frr nrr
+  have m1 : (pyMul (.int kmin) (.float s)).bind pyFloat = some mn := by
+    simp [pyMul, intLike?, pyFloat, hkmin, hmn]
+  have m2 : (pyMul (.int kmax) (.float s)).bind pyFloat = some mx := by
+    simp [pyMul, intLike?, pyFloat, hkmax, hmx]
+  simp only [mkScaled, h0, h1, h2, m1, m2, pyFloat, h3, h4, h5, h6, s0, s1, s2, s3, s4, s5, s6, ok_bind]
+  simp [hle, hfmt]
+
+theorem leaf_scaled (D : Consts F) (hD : D.OK) : ScaledLeafOK D := by
+  intro s mn mx ar rr u f hwf hex
+  simp only [DInfo.Exportable] at hex
+  obtain ⟨kmin, ymin, g1, o1, e1⟩ := aligned_iff hex.1
+  obtain ⟨kmax, ymax, g2, o2, e2⟩ := aligned_iff hex.2
+  refine ⟨_, by rw [exportDatatype, g1, g2], ?_⟩
+  rw [getDatatype_obj D _ "scaled" (by
+    simp [dictGet_append, dictGet_optField, dictGet_cons, dictGet_scaledAbsRes_ne])]
+  have hmk := mkScaled_of_args D hD (fields :=
+      optField (u != "") "unit" (.str u) ++
+      [("scale", .num s)] ++
+      optField (f != "%g") "fmtstr" (.str f) ++
+      optField (!feq rr D.relRes) "relative_resolution" (.num rr) ++
+      scaledAbsResField D s ar ++
+      [("type", .str "scaled"), ("min", .int kmin), ("max", .int kmax)]) hwf o1 e1 o2 e2
+    (by simp [arg, ofJVal, dictGet_append, dictGet_optField, dictGet_cons, dictGet_nil, dictGet_scaledAbsRes_ne])
+    (by simp [arg, ofJVal, dictGet_append, dictGet_optField, dictGet_cons, dictGet_nil, dictGet_scaledAbsRes_ne])
+    (by simp [arg, ofJVal, dictGet_append, dictGet_optField, dictGet_cons, dictGet_nil, dictGet_scaledAbsRes_ne])
+    (by by_cases h : u = "" <;>
+      simp [arg, ofJVal, dictGet_append, dictGet_optField, dictGet_cons, dictGet_nil, dictGet_scaledAbsRes_ne, h])
+    (by by_cases h : f = "%g" <;>
+      simp [arg, ofJVal, dictGet_append, dictGet_optField, dictGet_cons, dictGet_nil, dictGet_scaledAbsRes_ne, h])
+    (by cases h0 : feq ar D.zero <;> cases h1 : feq ar s <;>
+      simp [arg, ofJVal, dictGet_append, dictGet_optField, dictGet_cons, dictGet_nil, dictGet_scaledAbsRes_eq, h0, h1])
+    (by cases feq rr D.relRes <;>
+      simp [arg, ofJVal, dictGet_append, dictGet_optField, dictGet_cons, dictGet_nil, dictGet_scaledAbsRes_ne])
+  simp only [List.append_assoc, List.cons_append, List.nil_append] at hmk
+  simp [buildNode, dictGet_append, dictGet_optField, dictGet_cons, dictGet_nil, dictGet_scaledAbsRes_ne, hmk]
 
 end Frappy.Lemmas.C03Datainfo
